@@ -111,7 +111,8 @@ def unit_storage_sweep():
             def cid_rows(fmt):
                 rows = [["d", "format", fmt]] + ([["d", "encoding", "utf-8"]] if fmt == "delimited" else [])
                 rows += [["f", "id", "", "", "1...5", "Integer", "0...99999"], ["f", "name", "", "x", "...6", "Text", ""], ["f", "kind", "", "", "", "Choice", "a, b"], ["f", "amount", "", "x", "", "Decimal", "0...100"],
-                         ["f", "born", "", "x", "", "DateTime", "DD.MM.YYYY"], ["f", "code", "", "x", "", "Pattern", "a?*"], ["c", "u", "IsUnique", "id"]]
+                         ["f", "born", "", "x", "", "DateTime", "DD.MM.YYYY"], ["f", "code", "", "x", "", "Pattern", "a?*"], ["f", "twin", "ab1", "x", "", "Pattern", "a?*"], ["f", "ab", "ab", "x", "", "Choice", "ab, cd"],
+                         ["c", "u", "IsUnique", "id"]]
                 return rows
             # (1) the same CID contents stored three ways load into equivalent interfaces
             def cid_cases():
@@ -126,8 +127,8 @@ def unit_storage_sweep():
             res.append(sweep("C17/storage/the same CID stored as CSV, ODS and Excel loads into equivalent interfaces", cid_cases(), cid_check, "bounded", "3 CIDs (formats delimited / excel / ods; 6 field types, 1 check) x storage {csv, ods, xlsx}",
                              describe=lambda f: {"cid_format": f}, function="interface.Cid + rowio.auto_rows", unit="C17.storage", props=["C17"]))
             # (2) the same table stored three ways gets the same verdicts and values
-            good = ["17", "abc", "a", "1.5", "31.12.2020", "ab1"]
-            variants = [("id", 0, ["x", "123456", "-1", "", "17 "]), ("name", 1, ["toolong", ""]), ("kind", 2, ["c", "A", ""]), ("amount", 3, ["100.5", "abc", "", "NaN", "1,5"]), ("born", 4, ["31.02.2020", "", "2020-12-31"]), ("code", 5, ["b", ""])]
+            good = ["17", "abc", "a", "1.5", "31.12.2020", "ab1", "ab1", "ab"]      # adjacent equal cells: stored as column runs by the ODF encoder
+            variants = [("id", 0, ["x", "123456", "-1", "", "17 "]), ("name", 1, ["toolong", ""]), ("kind", 2, ["c", "A", ""]), ("amount", 3, ["100.5", "abc", "", "NaN", "1,5"]), ("born", 4, ["31.02.2020", "", "2020-12-31"]), ("code", 5, ["b", "", " ab1"]), ("ab", 7, ["cd", "ef", " ab"])]
             def tables():
                 yield [list(good)]
                 for _, col, vals in variants:
